@@ -222,7 +222,7 @@ func runC01(h *H) {
 	imports := []string{"From GoImap.Base Require Import Bytes.", "From GoImap.Model Require Import NumSet Utf7 Wire WireCorr."}
 	encCorr := h.NewCorr("encode", imports, "wenc_mismatches", 1500).Type("wenc_case")
 	decCorr := h.NewCorr("decode", imports, "wdec_mismatches", 2500).Type("wdec_case")
-	h.Rule("every Encoder primitive (String, Quoted, Mailbox, NumSet, Flag, MailboxAttr, Number, Number64, nested List) under all 8 mode combinations x 2 sides x continuation {absent, granted, cancelled}: strings over {NUL,CR,LF,\",\\,SP,a,0x80,e-acute,0xFF} exhaustively to the tier's length, lengths 4094..4099, random; mailbox names incl. every case variant of INBOX; flags/attributes over atom and non-atom characters; numbers at 0, 2^32-1, 2^63-1, negative; number sets from the C15 generator; nestings 0..3 and 997..1001. Each accepted output is decoded by the peer's real Decoder with four different trailers (oracle: same value modulo INBOX/flag canonicalisation, exactly the written bytes consumed) and by the model; every Decoder method is additionally run on mutated outputs and on garbage. Non-trivial = the value needed escaping, a literal, UTF-7, canonicalisation or was refused; distinct by (config, kind, value).")
+	h.Rule("every Encoder primitive (String, Quoted, Mailbox, NumSet, Flag, MailboxAttr, Number, Number64, nested List) under all 8 mode combinations x 2 sides x continuation {absent, granted, cancelled}: strings over {NUL,CR,LF,\",\\,SP,a,0x80,e-acute,0xFF} exhaustively to the tier's length, lengths 4094..4099, random; mailbox names incl. every case variant of INBOX and names of 120..1000 bytes whose non-ASCII runs straddle the UTF-7 transformer's 128-byte chunks; flags/attributes over atom and non-atom characters; numbers at 0, 2^32-1, 2^63-1, negative; number sets from the C15 generator; nestings 0..3 and 997..1001. Each accepted output is decoded by the peer's real Decoder with four different trailers (oracle: same value modulo INBOX/flag canonicalisation, exactly the written bytes consumed) and by the model; every Decoder method is additionally run on mutated outputs and on garbage. Non-trivial = the value needed escaping, a literal, UTF-7, canonicalisation or was refused; distinct by (config, kind, value).")
 
 	var cfgs []wcfg
 	for m := 0; m < 8; m++ {
@@ -444,6 +444,14 @@ func runC01(h *H) {
 	for _, s := range mboxes {
 		for _, c := range cfgs {
 			mboxCase(c, s)
+		}
+	}
+	// long names: the UTF-7 transformer works on 128-byte source chunks, so a non-ASCII run that
+	// straddles a chunk boundary (after an earlier expanding character) is a separate path
+	for _, n := range []int{120, 124, 126, 127, 128, 250, 254, 375, 376, 377, 380, 505, 1000} {
+		for _, s := range []string{"é/" + strings.Repeat("a", n) + "éé", strings.Repeat("a", n) + "日本語y", "&" + strings.Repeat("b", n) + "ü&ü", strings.Repeat("é", n)} {
+			mboxCase(cfgs[0], s)
+			mboxCase(cfgs[len(cfgs)-1], s)
 		}
 	}
 	// ---- flags / attributes ----
